@@ -379,9 +379,8 @@ class C15(Prop):
         "C15: admissible = medians and loads positive, strength_std > 0, load_std > 0 (load_std = 0.0 raises ZeroDivisionError "
         "in the repaired code, it returned 0.0 before 2a91979; the limit statement is about load_std -> 0, checked down to "
         "1e-30 strength_std); pf_norm_load takes scalars (quad is scalar); pf_simple_load / pf_arbitrary_load arrays",
-        "C15: the model describes the REPAIRED pf_norm_load (commit 2a91979 + tools/fixes/C15-pf-norm-load-break-points-clear-of-"
-        "limits.diff): without the second repair inputs whose break point candidate falls within a few ulp of +-16 are wrong by "
-        "1-10 % of min(pf, 1-pf) and the oracle reports them (class pf-breakpoint-at-limit)",
+        "C15: the model describes the REPAIRED pf_norm_load (/repo commits 2a91979 + 04bca38): on a tree without 04bca38 inputs whose break point candidate falls within a few ulp of +-16 are wrong by "
+        "1-10 % of min(pf, 1-pf) and the oracle reports them (class pf-breakpoint-at-limit, fixed by 04bca38)",
         "C15: FailureProbability objects are modelled as immutable pairs (log10 strength_median, strength_std); the state kind "
         "checks that a call sequence on one object gives the results of fresh objects",
     ]
